@@ -312,4 +312,73 @@ Proof.
       destruct (s o) as [[l|]|]; auto. rewrite (C2 o r Nr Ho1). exact R1.
 Qed.
 
+(* ---- every finite sequence of string operations, throwing ones included ---- *)
+Fixpoint run_tops (ts : list top) (st : store) : list (outcome unit) * store :=
+  match ts with
+  | [] => ([], st)
+  | t :: rest => let '(r, st1) := run_top L t st in
+                 let '(rs, st2) := run_tops rest st1 in (r :: rs, st2)
+  end.
+
+Fixpoint wf_tops (s : sstore) (ts : list top) : Prop :=
+  match ts with
+  | [] => True
+  | t :: rest => top_wf s t /\ wf_tops (spec_top s t) rest
+  end.
+
+Definition expected_result (t : top) : outcome unit :=
+  match snd (expand t) with None => Ok tt | Some e => Throw e end.
+
+Theorem tops_ok ts : forall st s,
+  Inv st -> Rel st s -> wf_tops s ts ->
+  fst (run_tops ts st) = map expected_result ts /\
+  Inv (snd (run_tops ts st)) /\ Rel (snd (run_tops ts st)) (fold_left spec_top ts s).
+Proof.
+  induction ts as [|t rest IH]; intros st s I R W; simpl.
+  - auto.
+  - destruct W as (W1 & W2).
+    destruct (snd (expand t)) as [e|] eqn:Ex.
+    + (* throwing *)
+      destruct t as [| | | | | | | | | | | | | | |temps e0]; simpl in Ex; try discriminate. injection Ex as ->.
+      destruct (top_throw_ok st s temps e I R W1) as (st1 & E1 & I1 & R1 & _).
+      rewrite E1. assert (Hs : spec_top s (TThrowing temps e) = s) by reflexivity. rewrite Hs in *.
+      destruct (IH st1 s I1 R1 W2) as (A & B & C).
+      destruct (run_tops rest st1) as (rs, st2). simpl in *. split; [|split]; auto.
+      unfold expected_result. simpl. f_equal. exact A.
+    + destruct (top_ok st s t I R W1 Ex) as (st1 & E1 & I1 & R1 & _).
+      rewrite E1. destruct (IH st1 _ I1 R1 W2) as (A & B & C).
+      destruct (run_tops rest st1) as (rs, st2). simpl in *. split; [|split]; auto.
+      unfold expected_result at 1. rewrite Ex. f_equal. exact A.
+Qed.
+
+(* const members and free functions: the footprints that do not name the source *)
+Definition is_const (t : top) : bool :=
+  match t with
+  | TReads _ | TFreshNRVO _ _ _ | TFreshMoveCtor _ _ _ | TFreshMoveAsg _ _ _ | TEmpty _ | TCopyOf _ _ | TCopyMove _ _ => true
+  | _ => false
+  end.
+Definition source_of (t : top) : option objid :=
+  match t with
+  | TReads o => Some o
+  | TFreshNRVO _ src _ | TFreshMoveCtor _ src _ | TFreshMoveAsg _ src _ | TCopyOf _ src | TCopyMove _ src => Some src
+  | _ => None
+  end.
+
+(* C04, first sentence: a const operation leaves its source's bytes, size and data pointer unchanged,
+   whatever value it computes *)
+Theorem const_frame st s t src r :
+  Inv st -> Rel st s -> top_wf s t -> is_const t = true -> source_of t = Some src -> objs st src = Some r ->
+  exists st', run_top L t st = (Ok tt, st') /\ Inv st' /\ objs st' src = Some r /\ contents st' r = contents st r.
+Proof.
+  intros I R W C S Hs.
+  assert (NT : snd (expand t) = None) by (destruct t; simpl in C; try discriminate; reflexivity).
+  destruct (top_ok st s t I R W NT) as (st' & E & I' & R' & F).
+  exists st'. split; [exact E|]. split; [exact I'|].
+  destruct W as (_ & W).
+  apply F; [| |exact Hs].
+  - destruct t; simpl in S, W, C; try discriminate; injection S as <-; tauto.
+  - destruct t; simpl in S, W, C |- *; try discriminate; injection S as <-; try tauto.
+    all: intros [E2|[]]; subst; destruct W as (Wr & _ & Ws & _); congruence.
+Qed.
+
 End SP.
